@@ -89,6 +89,13 @@ func init() {
 		return valueEnc(valgen.GenTag(r, []byte{refcodec.TList, refcodec.TMap, refcodec.TIntMap}[r.Intn(3)], r.Range(1, 3), r.Range(1, 8)))
 	})
 	fam("value/deep", func(r *vlib.Rand) *enc { return valueEnc(valgen.Deep(r, r.Range(3, 40))) })
+	// long chains: what nesting adds up to only shows when there are hundreds of levels
+	fam("value/deep-chain", func(r *vlib.Rand) *enc {
+		if r.Bool() {
+			return valueEnc(valgen.Deep(r, r.Range(250, 400)))
+		}
+		return valueEnc(valgen.Deep(r, r.Range(40, 120)))
+	})
 	fam("value/wide", func(r *vlib.Rand) *enc {
 		tags := []byte{refcodec.TList, refcodec.TMap, refcodec.TIntMap, refcodec.TIntArray, refcodec.TLongArray, refcodec.TFloatArray, refcodec.TTextArray}
 		n := []int{100, 127, 128, 129, 255, 256, 300, 1000, 3000}[r.Intn(9)]
@@ -194,7 +201,12 @@ func init() {
 	pk("ExtensionPack", encExtensionPack)
 	pk("TagCountPack", encTagCountPack)
 	pk("TagLogPack", encTagLogPack)
-	pk("CompositePack", func(r *vlib.Rand) *W { return encCompositePack(r, 2) })
+	pk("CompositePack", func(r *vlib.Rand) *W {
+		if r.Chance(1, 3) {
+			return encCompositeChain(r, r.Range(3, 40))
+		}
+		return encCompositePack(r, 2)
+	})
 	pk("LogSinkPack", encLogSinkPack)
 	pk("ZipPack", func(r *vlib.Rand) *W { return encZipPack(r, 2) })
 	pk("LogSinkZipPack", encLogSinkZipPack)
